@@ -588,42 +588,9 @@ def TableLimit (env : IEnv World) : Prop :=
 /-- the loop invariant: memory below the ceiling of the gas schedule -/
 def Inv (s : IState World) : Prop := s.mem.length ≤ memCeil
 
-/-- **One iteration never panics** and keeps the invariant: for every program, program counter, stack, memory content,
-    gas, calldata, world and tracer, on every table that satisfies `rowSafe`. -/
-theorem step_safe {env : IEnv World} (hT : TableSafe env) (hE : EnvOK env) (s : IState World) (hinv : Inv s) :
-    (step env s).notPanic ∧ ∀ s', step env s = .next s' → Inv s' := by
-  unfold step stepWith
-  cases hpre : pre env s with
-  | halt h g => exact ⟨trivial, fun s' h => by cases h⟩
-  | panic p =>
-    -- the part before `execute` panics only through `dynPart`
-    exfalso
-    unfold pre at hpre
-    dsimp only at hpre
-    cases hr : env.table (opAt env.code s.pc) with
-    | none => rw [hr] at hpre; cases hpre
-    | some row =>
-      rw [hr] at hpre; dsimp only at hpre
-      cases hd : decode row.exec (opAt env.code s.pc) with
-      | none => rw [hd] at hpre; cases hpre
-      | some i =>
-        rw [hd] at hpre; dsimp only at hpre
-        have hsafe := hT _ _ _ hr hd
-        by_cases h1 : s.stack.length < row.minStack
-        · rw [if_pos h1] at hpre; cases hpre
-        · by_cases h2 : s.stack.length > row.maxStack
-          · rw [if_neg h1, if_pos h2] at hpre; cases hpre
-          · by_cases h3 : s.gas < row.cgas
-            · rw [if_neg h1, if_neg h2, if_pos h3] at hpre; cases hpre
-            · rw [if_neg h1, if_neg h2, if_neg h3] at hpre
-              have hnp := dynPart_notPanic (op := opAt env.code s.pc) (s := { s with gas := s.gas - row.cgas }) hsafe (by simp; omega)
-              cases hdp : dynPart (opAt env.code s.pc) row { s with gas := s.gas - row.cgas } with
-              | halt h g => rw [hdp] at hpre; cases hpre
-              | panic p' => rw [hdp] at hnp; exact hnp
-              | next s1 => rw [hdp] at hpre; cases hpre
-  | next is1 =>
-    obtain ⟨i, s1⟩ := is1
-    dsimp only
+/-- what the part before `execute` establishes for the instruction it hands over -/
+theorem pre_execSafe {env : IEnv World} (hT : TableSafe env) (hE : EnvOK env) {s s1 : IState World} {i : Instr} (hinv : Inv s)
+    (hpre : pre env s = .next (i, s1)) : ExecSafe env i s1 ∧ Inv s1 := by
     obtain ⟨row, hr, hd, h1, h2, h3, hdp⟩ := pre_next_inv hpre
     have hsafe := hT _ _ _ hr hd
     obtain ⟨hstk, _, _, _, _, _, _⟩ := dynPart_frame hdp
@@ -668,7 +635,45 @@ theorem step_safe {env : IEnv World} (hT : TableSafe env) (hE : EnvOK env) (s : 
               obtain ⟨_, _, _, hl, _⟩ := dynPart_covers hmd hmne hdp hms hinv
               exact hl
     obtain ⟨hcov, hinv1⟩ := hcovinv
-    obtain ⟨hnp1, hmemlen⟩ := exec_safe env hE i s1 hpops hn hcov hinv1
+    exact ⟨exec_safe env hE i s1 hpops hn hcov hinv1, hinv1⟩
+
+/-- **One iteration never panics** and keeps the invariant: for every program, program counter, stack, memory content,
+    gas, calldata, world and tracer, on every table that satisfies `rowSafe`. -/
+theorem step_safe {env : IEnv World} (hT : TableSafe env) (hE : EnvOK env) (s : IState World) (hinv : Inv s) :
+    (step env s).notPanic ∧ ∀ s', step env s = .next s' → Inv s' := by
+  unfold step stepWith
+  cases hpre : pre env s with
+  | halt h g => exact ⟨trivial, fun s' h => by cases h⟩
+  | panic p =>
+    -- the part before `execute` panics only through `dynPart`
+    exfalso
+    unfold pre at hpre
+    dsimp only at hpre
+    cases hr : env.table (opAt env.code s.pc) with
+    | none => rw [hr] at hpre; cases hpre
+    | some row =>
+      rw [hr] at hpre; dsimp only at hpre
+      cases hd : decode row.exec (opAt env.code s.pc) with
+      | none => rw [hd] at hpre; cases hpre
+      | some i =>
+        rw [hd] at hpre; dsimp only at hpre
+        have hsafe := hT _ _ _ hr hd
+        by_cases h1 : s.stack.length < row.minStack
+        · rw [if_pos h1] at hpre; cases hpre
+        · by_cases h2 : s.stack.length > row.maxStack
+          · rw [if_neg h1, if_pos h2] at hpre; cases hpre
+          · by_cases h3 : s.gas < row.cgas
+            · rw [if_neg h1, if_neg h2, if_pos h3] at hpre; cases hpre
+            · rw [if_neg h1, if_neg h2, if_neg h3] at hpre
+              have hnp := dynPart_notPanic (op := opAt env.code s.pc) (s := { s with gas := s.gas - row.cgas }) hsafe (by simp; omega)
+              cases hdp : dynPart (opAt env.code s.pc) row { s with gas := s.gas - row.cgas } with
+              | halt h g => rw [hdp] at hpre; cases hpre
+              | panic p' => rw [hdp] at hnp; exact hnp
+              | next s1 => rw [hdp] at hpre; cases hpre
+  | next is1 =>
+    obtain ⟨i, s1⟩ := is1
+    dsimp only
+    obtain ⟨⟨hnp1, hmemlen⟩, hinv1⟩ := pre_execSafe hT hE hinv hpre
     refine ⟨hnp1, ?_⟩
     intro s' hs'
     unfold Inv
